@@ -104,7 +104,7 @@ class CopyExperiment:
                 kinds.append(k)
         if not kinds:
             return None
-        kind = P.pick(rng, kinds)
+        kind = P.pick(rng, kinds + (["block", "block"] if "block" in kinds else []))
         return {"op": "copy_experiment", "kind": kind, "src": idx(rng), "dst": idx(rng),
                 "keep_id": rng.random() < 0.5, "rename": rng.random() < 0.6,
                 "other_file": rng.random() < 0.4, "children": rng.random() < 0.7,
@@ -377,6 +377,19 @@ class CopyExperiment:
             if len(h.sources):
                 h.sources[0].definition = "mutated-src-" + tag
                 done.append("child_source")
+            if allow_delete and seed % 2 == 0:
+                # delete an array that other entities of this block link to
+                linked = set()
+                for g in h.groups:
+                    linked.update(a.name for a in g.data_arrays)
+                for t in list(h.tags) + list(h.multi_tags):
+                    linked.update(a.name for a in t.references)
+                for nm in sorted(linked):
+                    if nm in h.data_arrays:
+                        del h.data_arrays[nm]
+                        done.append("delete_linked_array")
+                        run.stats["copy_side_deleted_linked_array"] += 1
+                        break
         return done
 
     def _independence(self, run, o, base, ch, sh, wfn, site, keep_id, same_file):
